@@ -126,6 +126,19 @@ impl XTree {
         self.sexp_rec(lang, 0, &mut s);
         s
     }
+    /// S-expression with byte ranges on every node, for replay output.
+    pub fn sexp_pos(&self, lang: &tree_sitter::Language) -> String {
+        fn rec(x: &XTree, lang: &tree_sitter::Language, i: usize, out: &mut String) {
+            let n = &x.nodes[i];
+            let kind = lang.node_kind_for_id(n.kind_id).unwrap_or("?");
+            out.push_str(&format!("({:?}{}@{}..{}", kind, if n.missing { "!MISSING" } else { "" }, n.start, n.end));
+            for &c in &n.children { out.push(' '); rec(x, lang, c, out); }
+            out.push(')');
+        }
+        let mut s = String::new();
+        rec(self, lang, 0, &mut s);
+        s
+    }
     fn sexp_rec(&self, lang: &tree_sitter::Language, i: usize, out: &mut String) {
         let n = &self.nodes[i];
         let kind = lang.node_kind_for_id(n.kind_id).unwrap_or("?");
